@@ -227,7 +227,9 @@ fn cmd_run() {
         }
     }
     let n = tasks.len();
-    let fresh = plan.get("fresh_threads").and_then(|x| x.as_bool()).unwrap_or(false);
+    // true/false for all tasks, or one flag per task (thread churn next to a long-lived thread)
+    let fresh_all = plan.get("fresh_threads").and_then(|x| x.as_bool()).unwrap_or(false);
+    let fresh_per_task: Vec<bool> = plan.get("fresh_threads").and_then(|x| x.as_array()).map(|a| a.iter().map(|b| b.as_bool().unwrap_or(false)).collect()).unwrap_or_default();
     let keep_log = plan.get("keep_log").and_then(|x| x.as_bool()).unwrap_or(false);
     let reuse = plan.get("reuse_buffer").and_then(|x| x.as_bool()).unwrap_or(false);
     let mut start_at: Vec<u64> =
@@ -251,6 +253,7 @@ fn cmd_run() {
     for t in 0..n {
         let sim = sim.clone();
         let tasks = tasks.clone();
+        let fresh_per_task = fresh_per_task.clone();
         handles.push(
             std::thread::Builder::new()
                 .name(format!("task{t}"))
@@ -260,6 +263,7 @@ fn cmd_run() {
                     sim.task_enter(t);
                     let mut out = Vec::new();
                     for (j, job) in tasks[t].iter().enumerate() {
+                        let fresh = fresh_per_task.get(t).copied().unwrap_or(fresh_all);
                         out.push(run_one(&sim, t, j, job, fresh, reuse));
                     }
                     sim.task_exit(t);
